@@ -1,8 +1,10 @@
 package model
 
 import (
+	"bytes"
 	"encoding/json"
 	"fmt"
+	"io"
 	"net/http"
 	"net/url"
 	"os"
@@ -435,7 +437,19 @@ func RenderFE(fe string, root *Node, logical Val) (*Rendered, error) {
 		} else {
 			// the request's method and the Content-Type's parameters vary with the document (no effect on the record)
 			k := int(fnv32(r.Text))
-			req, _ := http.NewRequest(bodyMethods[k%len(bodyMethods)], "http://example.test/x", strings.NewReader(r.Text))
+			// ... and so does the way the body reaches net/http: readers of known length, a reader whose length the
+			// client does not know, a chunked body as a server sees it
+			var body io.Reader = strings.NewReader(r.Text)
+			switch (k / 3) % 4 {
+			case 1:
+				body = bytes.NewBufferString(r.Text)
+			case 2, 3:
+				body = io.NopCloser(strings.NewReader(r.Text))
+			}
+			req, _ := http.NewRequest(bodyMethods[k%len(bodyMethods)], "http://example.test/x", body)
+			if (k/3)%4 == 3 {
+				req.ContentLength, req.TransferEncoding = -1, []string{"chunked"}
+			}
 			req.Header.Set("Content-Type", jsonCTypes[(k/7)%len(jsonCTypes)])
 			r.Data, r.Req = zhttp.Request(req), req
 		}
